@@ -21,7 +21,7 @@ META = {
     "from_fill_fn, random and from_dense (classmethod and utils helper) are called on every class that can represent it (static class, dynamic class with the symmetry "
     "as string and as object) with the optional arguments given and omitted, and the results compared pairwise with the harness's own expectation (tables, charge, symmetry, "
     "blocks exactly); a static class given a mismatching symmetry and a dynamic class given none must refuse; dense trips under sorted / reversed / interleaved / seeded labelings; "
-    "to_dense against the harness embedding, also for arrays whose blocks have differing element types (real/complex, int/float, float32/float64, narrow stored first or last). non-trivial = at least one dual index and >=2 stored sectors",
+    "from_dense on every arrangement of 3-4 positions of one charge among 5-7 positions (vectors, matrix rows); to_dense against the harness embedding, also for arrays whose blocks have differing element types (real/complex, int/float, float32/float64, narrow stored first or last). non-trivial = at least one dual index and >=2 stored sectors",
     "bounds": {"quick": "n<=2 menu core, n=3 menu m3", "thorough": "n=3 menu core"},
     "assumptions": [
         "from_blocks can only know the charges that occur in the given blocks: compared with tables restricted to those charges",
@@ -355,9 +355,68 @@ def dense_failures(d, seed, st=None):
     return fails
 
 
+def position_failures(sym, st=None):
+    """from_dense with EVERY arrangement of the positions of one charge on an axis (3-4 positions of the charge among 5-7,
+    the others carrying a second charge): vectors, and matrices whose row axis runs through the arrangements"""
+    fails = []
+    al = G.ALPHABET[sym]
+    e = G.identity(sym)
+    klass = get_class(sym, False, "dyn")[0]
+    for c in al[:2]:
+        other = [q for q in al if q != c][0]
+        for dual in (False, True):
+            for k, N in ((3, 5), (3, 6), (4, 6), (4, 7)):
+                for pos in itertools.combinations(range(N), k):
+                    labels = [c if i in pos else other for i in range(N)]
+                    vec = np.zeros(N)
+                    vec[list(pos)] = np.arange(1, k + 1)
+                    try:
+                        with warnings.catch_warnings():
+                            warnings.simplefilter("error")
+                            y = klass.from_dense(vec, [labels], [dual], charge=G.signed(sym, c, dual), symmetry=sym)
+                        if st is not None:
+                            st.transitions += 1
+                            st.evaluations += 1
+                        blk = y.blocks.get((c,))
+                        if set(y.blocks) != {(c,)} or blk is None or not exact_equal(blk, np.arange(1, k + 1, dtype=float)):
+                            fails.append(("C16/from_dense[positions]/vector", f"{sym} labels {labels}: block {None if blk is None else np.asarray(blk).tolist()} expected {list(range(1, k + 1))}"))
+                    except Exception as ex:
+                        fails.append((f"C16/from_dense[positions]/raised-{type(ex).__name__}", f"{sym} labels {labels}: {ex}"))
+                    if dual or k == 4:
+                        continue
+                    # matrix: rows run through the arrangement, columns interleaved; total charge identity with (row, col*) directions
+                    cols = [c, other, c, other]
+                    M = np.zeros((N, 4))
+                    tag = 1
+                    want = {}
+                    for rc in (c, other):
+                        rows = [i for i in range(N) if labels[i] == rc]
+                        cc = [j for j in range(4) if cols[j] == rc]
+                        blkw = np.zeros((len(rows), len(cc)))
+                        for a, i in enumerate(rows):
+                            for b, j in enumerate(cc):
+                                M[i, j] = tag
+                                blkw[a, b] = tag
+                                tag += 1
+                        want[(rc, rc)] = blkw
+                    try:
+                        with warnings.catch_warnings():
+                            warnings.simplefilter("error")
+                            y = klass.from_dense(M, [labels, cols], [False, True], charge=e, symmetry=sym)
+                        if st is not None:
+                            st.transitions += 1
+                            st.evaluations += 1
+                        if set(y.blocks) != set(want) or not all(exact_equal(y.blocks[s_], want[s_]) for s_ in want):
+                            fails.append(("C16/from_dense[positions]/matrix", f"{sym} row labels {labels}"))
+                    except Exception as ex:
+                        fails.append((f"C16/from_dense[positions]/raised-{type(ex).__name__}", f"{sym} row labels {labels}: {ex}"))
+    return fails
+
+
 def groups(ctx):
     out = []
     for sym in G.SYMS:
+        out.append((sym, "positions", 0, 0, 1))
         for ferm in (False, True):
             for n in (0, 1, 2, 3):
                 nch = {0: 1, 1: 1, 2: 2, 3: 8 if not ctx.thorough else 32}[n]
@@ -370,6 +429,12 @@ def run_group(ctx, group):
     sym, ferm, n, k, nch = group
     st = Stats()
     reset_library_state()
+    if ferm == "positions":
+        for sig, det in position_failures(sym, st):
+            st.violation(sig, {"positions": sym}, det)
+        st.states += 1
+        st.traces += 1
+        return st
     menu = "core" if n <= 2 else ("core" if ctx.thorough else "m3")
     sp = "all" if n <= 1 else "le1"
     i = -1
@@ -393,5 +458,7 @@ def run_group(ctx, group):
 
 
 def replay(ctx, case):
+    if "positions" in case:
+        return position_failures(case["positions"])
     d = case["x"]
     return construct_failures(d["sym"], d["ferm"], d["indices"], d["charge"], d["sectors"]) + dense_failures(d, ctx.seed)
